@@ -355,3 +355,114 @@ Proof.
     destruct (walk_resolve (S f) cfg st l2) as [b| | |]; try reflexivity. cbn [bind].
     rewrite app_assoc. reflexivity.
 Qed.
+
+(* ------------------------------------------------------------------ what the decidable predicate means:
+   "no snippet value reaches itself through the names it mentions" *)
+Inductive reaches (cfg : mconfig) : str -> str -> Prop :=
+| reach_step : forall s t, In t (mentions cfg s) -> reaches cfg s t
+| reach_more : forall s t u, In t (mentions cfg s) -> reaches cfg t u -> reaches cfg s u.
+
+Lemma reaches_snoc : forall cfg s t u, reaches cfg s t -> In u (mentions cfg t) -> reaches cfg s u.
+Proof.
+  intros cfg s t u H. induction H as [s t H|s t w H _ IH]; intro Hu.
+  - eapply reach_more; [exact H|apply reach_step; exact Hu].
+  - eapply reach_more; [exact H|apply IH; exact Hu].
+Qed.
+
+Lemma node_defs_value : forall cfg n t, In t (node_defs cfg n) -> In t (snippet_values cfg).
+Proof.
+  intros cfg n. apply (anode_ind' (fun n => forall t, In t (node_defs cfg n) -> In t (snippet_values cfg))).
+  intros nm v rp at_ ch sc F t H. rewrite node_defs_eq in H. apply in_app_or in H. destruct H as [H|H].
+  - destruct (def_of cfg nm) as [s|] eqn:E; [|contradiction]. destruct H as [H|[]]. subst.
+    exact (def_of_value cfg nm t E).
+  - unfold forest_defs in H. apply in_flat_map in H. destruct H as [c [Hc Ht]].
+    rewrite Forall_forall in F. exact (F c Hc t Ht).
+Qed.
+
+Lemma mentions_value : forall cfg s t, In t (mentions cfg s) -> In t (snippet_values cfg).
+Proof.
+  intros cfg s t H. unfold mentions in H. destruct (parse_def cfg s) as [parsed| | |]; try contradiction.
+  unfold forest_defs in H. apply in_flat_map in H. destruct H as [c [_ Ht]]. exact (node_defs_value cfg c t Ht).
+Qed.
+
+Lemma reaches_value : forall cfg s t, reaches cfg s t -> In t (snippet_values cfg).
+Proof. intros cfg s t H. induction H as [s t H|s t u _ _ IH]; [exact (mentions_value cfg s t H)|exact IH]. Qed.
+
+(* soundness: a safe walk certifies every definition it can reach *)
+Lemma safe_reaches : forall cfg s t, reaches cfg s t ->
+  forall f path, safe f cfg path s = true ->
+  exists f' path', safe f' cfg path' t = true /\ incl (s :: path) path'.
+Proof.
+  intros cfg s t H. induction H as [s t H|s t u H _ IH]; intros f path Hs.
+  - destruct f as [|f]; [discriminate|]. rewrite safe_S in Hs. apply andb_true_iff in Hs. destruct Hs as [_ Hs].
+    rewrite forallb_forall in Hs. exists f, (s :: path). split; [exact (Hs t H)|apply incl_refl].
+  - destruct f as [|f]; [discriminate|]. rewrite safe_S in Hs. apply andb_true_iff in Hs. destruct Hs as [_ Hs].
+    rewrite forallb_forall in Hs. destruct (IH f (s :: path) (Hs t H)) as [f' [path' [H1 H2]]].
+    exists f', path'. split; [exact H1|]. intros y Hy. apply H2. right. exact Hy.
+Qed.
+
+Lemma safe_not_on_path : forall f cfg path s, safe f cfg path s = true -> ~ In s path.
+Proof.
+  intros f cfg path s H. destruct f as [|f]; [discriminate|]. rewrite safe_S in H.
+  apply andb_true_iff in H. destruct H as [H _]. apply negb_true_iff in H. apply mem_str_not_In. exact H.
+Qed.
+
+Lemma safe_no_cycle : forall f cfg path s, safe f cfg path s = true -> ~ reaches cfg s s.
+Proof.
+  intros f cfg path s Hs Hr. destruct (safe_reaches cfg s s Hr f path Hs) as [f' [path' [H1 H2]]].
+  apply (safe_not_on_path f' cfg path' s H1). apply H2. left. reflexivity.
+Qed.
+
+(* completeness: on the way down the path is a duplicate-free chain of table values (pigeonhole:
+   the fuel |snippets| is enough) *)
+Lemma safe_complete : forall f cfg path s,
+  NoDup path -> incl path (snippet_values cfg) -> In s (snippet_values cfg) ->
+  length (snippet_values cfg) <= f + length path ->
+  (forall p, In p path -> reaches cfg p s) ->
+  (forall t, t = s \/ reaches cfg s t -> ~ reaches cfg t t) ->
+  safe f cfg path s = true.
+Proof.
+  induction f as [|f IH]; intros cfg path s ND INC Hs LEN Hpath Hcyc.
+  - exfalso.
+    assert (Hn : ~ In s path) by (intro HI; exact (Hcyc s (or_introl eq_refl) (Hpath s HI))).
+    assert (ND' : NoDup (s :: path)) by (constructor; assumption).
+    assert (INC' : incl (s :: path) (snippet_values cfg)) by (intros y [Hy|Hy]; [subst; exact Hs|apply INC; exact Hy]).
+    pose proof (NoDup_incl_length ND' INC') as L. simpl in L, LEN. lia.
+  - assert (Hn : ~ In s path) by (intro HI; exact (Hcyc s (or_introl eq_refl) (Hpath s HI))).
+    rewrite safe_S. apply andb_true_iff. split.
+    + apply negb_true_iff. apply mem_str_not_In. exact Hn.
+    + apply forallb_forall. intros t Ht. apply IH.
+      * constructor; assumption.
+      * intros y [Hy|Hy]; [subst; exact Hs|apply INC; exact Hy].
+      * exact (mentions_value cfg s t Ht).
+      * simpl. lia.
+      * intros p [Hp|Hp]; [subst; apply reach_step; exact Ht|exact (reaches_snoc cfg p s t (Hpath p Hp) Ht)].
+      * intros u [Hu|Hu]; apply Hcyc; right.
+        -- subst. apply reach_step. exact Ht.
+        -- eapply reach_more; [exact Ht|exact Hu].
+Qed.
+
+Theorem acyclic_from_spec : forall cfg d, In d (snippet_values cfg) ->
+  (acyclic_from cfg d = true <-> forall t, t = d \/ reaches cfg d t -> ~ reaches cfg t t).
+Proof.
+  intros cfg d Hd. unfold acyclic_from. split.
+  - intros H t [Ht|Ht].
+    + subst. exact (safe_no_cycle _ cfg [] d H).
+    + destruct (safe_reaches cfg d t Ht _ [] H) as [f' [path' [H1 _]]]. exact (safe_no_cycle f' cfg path' t H1).
+  - intro H. apply safe_complete; try assumption.
+    + constructor.
+    + intros y [].
+    + rewrite length_values. simpl. lia.
+    + intros p [].
+Qed.
+
+(* the table predicate: no snippet value reaches itself through the names it mentions *)
+Theorem acyclic_table_spec : forall cfg,
+  acyclic_table cfg = true <-> forall s, In s (snippet_values cfg) -> ~ reaches cfg s s.
+Proof.
+  intro cfg. unfold acyclic_table. rewrite forallb_forall. split.
+  - intros H s Hs. apply (proj1 (acyclic_from_spec cfg s Hs) (H s Hs)). left. reflexivity.
+  - intros H d Hd. apply (acyclic_from_spec cfg d Hd). intros t [Ht|Ht].
+    + subst. exact (H d Hd).
+    + exact (H t (reaches_value cfg d t Ht)).
+Qed.
